@@ -114,3 +114,200 @@ theorem aexact_of_inv (a : ASt) (h : AInv a) : aexact a = true := by
     simpa using h.stored i p Pc.responded hp (Or.inr rfl)
 
 end ConcRelay
+
+namespace ConcRelay
+
+/-! ## the allowance bound holds for every schedule of the code as it is -/
+
+def EvOk (max : Nat) (e : Ev) : Prop := e.proofs.length = e.n ∧ e.n ≤ max
+
+/-- "sealed and something stored": from then on `Set` is a no-op. -/
+def Frozen (s : St) : Prop := s.sealed_ = true ∧ s.stored.isSome = true
+
+def TOk (s : St) (t : Thread) : Prop :=
+  match t.pc with
+  | .validated => 0 < s.max
+  | .got => t.loc.proofs.length = t.loc.n ∧ (t.loc.n < s.max ∨ Frozen s)
+  | .added => t.loc.proofs.length = t.loc.n ∧ (t.loc.n ≤ s.max ∨ Frozen s)
+  | _ => True
+
+structure CInv (s : St) : Prop where
+  stored : ∀ e, s.stored = some e → EvOk s.max e
+  snap : s.sealer = .read → EvOk s.max s.snap
+  threads : ∀ t ∈ s.threads, TOk s t
+
+/-- shared-state changes that keep every thread's invariant -/
+def Mono (s s' : St) : Prop := s'.max = s.max ∧ (Frozen s → Frozen s')
+
+theorem tok_mono {s s' : St} (h : Mono s s') (t : Thread) (ht : TOk s t) : TOk s' t := by
+  unfold TOk at *
+  obtain ⟨hm, hf⟩ := h
+  cases hpc : t.pc <;> simp only [hpc] at ht ⊢
+  · rw [hm]; exact ht
+  · rw [hm]; exact ⟨ht.1, ht.2.imp id hf⟩
+  · rw [hm]; exact ⟨ht.1, ht.2.imp id hf⟩
+
+theorem getEvidence_spec (s : St) (h : CInv s) :
+    Mono s (getEvidence s).2 ∧ (getEvidence s).2.threads = s.threads ∧
+    (getEvidence s).2.sealer = s.sealer ∧ (getEvidence s).2.snap = s.snap ∧
+    (∀ e, (getEvidence s).2.stored = some e → EvOk s.max e) ∧
+    (getEvidence s).1.proofs.length = (getEvidence s).1.n ∧
+    (0 < s.max → (getEvidence s).1.n < s.max ∨ Frozen (getEvidence s).2) := by
+  unfold getEvidence
+  cases hs : s.stored with
+  | none => simp [Mono, Frozen, hs]
+  | some e =>
+    have he := h.stored e hs
+    unfold EvOk at he
+    by_cases hfl : s.flushed = true <;> by_cases hsl : s.sealed_ = true <;>
+      by_cases hmx : s.max ≠ 0 ∧ e.n ≥ s.max <;>
+      simp [Mono, Frozen, EvOk, hs, hfl, hsl, hmx, he] <;> omega
+
+theorem cinv_setThread (s s1 : St) (i : Nat) (tnew : Thread) (h : CInv s) (hm : Mono s s1)
+    (hthreads : s1.threads = s.threads)
+    (hst : ∀ e, s1.stored = some e → EvOk s1.max e)
+    (hsn : s1.sealer = .read → EvOk s1.max s1.snap) (hnew : TOk s1 tnew) :
+    CInv (setThread s1 i tnew) := by
+  have hm' : Mono s (setThread s1 i tnew) := ⟨hm.1, fun hf => hm.2 hf⟩
+  refine ⟨hst, hsn, ?_⟩
+  intro t ht
+  simp only [setThread, hthreads] at ht
+  rcases List.mem_or_eq_of_mem_set ht with ht | ht
+  · exact tok_mono hm' t (h.threads t ht)
+  · subst ht
+    exact tok_mono (s := s1) ⟨rfl, fun hf => hf⟩ _ hnew
+
+theorem cinv_shared (s s' : St) (h : CInv s) (hm : Mono s s') (hthreads : s'.threads = s.threads)
+    (hst : ∀ e, s'.stored = some e → EvOk s'.max e)
+    (hsn : s'.sealer = .read → EvOk s'.max s'.snap) : CInv s' := by
+  refine ⟨hst, hsn, ?_⟩
+  intro t ht
+  rw [hthreads] at ht
+  exact tok_mono hm t (h.threads t ht)
+
+theorem mem_of_getElem? {α : Type} {l : List α} {i : Nat} {a : α} (h : l[i]? = some a) : a ∈ l :=
+  List.mem_of_getElem? h
+
+theorem cinv_step (s : St) (l : Label) (h : CInv s) : CInv (step s l) := by
+  match l with
+  | .relay i a =>
+    simp only [step]
+    cases ht : s.threads[i]? with
+    | none => exact h
+    | some t =>
+      have htok := h.threads t (mem_of_getElem? ht)
+      obtain ⟨gm, gt, gsl, gsn, gst, gl, gn⟩ := getEvidence_spec s h
+      simp only
+      match a, hpc : t.pc with
+      | .validate, .start =>
+        simp only
+        refine cinv_setThread s _ i _ h gm gt (fun e he => by rw [gm.1]; exact gst e he)
+          (fun hr => by rw [gsl] at hr; rw [gm.1, gsn]; exact h.snap hr) ?_
+        by_cases hok : (!(getEvidence s).2.sealed_ && !(bloomOf (getEvidence s).2 (getEvidence s).1.bloom).contains t.proof &&
+            decide ((getEvidence s).1.n < (getEvidence s).2.max)) = true
+        · rw [if_pos hok]
+          simp only [Bool.and_eq_true, Bool.not_eq_true', decide_eq_true_eq] at hok
+          unfold TOk
+          simp only
+          omega
+        · rw [if_neg hok]
+          unfold TOk
+          trivial
+      | .get, .validated =>
+        simp only
+        have hmax : 0 < s.max := by unfold TOk at htok; simpa [hpc] using htok
+        refine cinv_setThread s _ i _ h gm gt (fun e he => by rw [gm.1]; exact gst e he)
+          (fun hr => by rw [gsl] at hr; rw [gm.1, gsn]; exact h.snap hr) ?_
+        unfold TOk
+        simp only [gm.1]
+        exact ⟨gl, gn hmax⟩
+      | .add, .got =>
+        simp only
+        have hg : t.loc.proofs.length = t.loc.n ∧ (t.loc.n < s.max ∨ Frozen s) := by
+          unfold TOk at htok; simpa [hpc] using htok
+        refine cinv_setThread s _ i _ h ⟨rfl, fun hf => hf⟩ rfl (fun e he => h.stored e he)
+          (fun hr => h.snap hr) ?_
+        unfold TOk
+        simp only [List.length_append, List.length_cons, List.length_nil]
+        exact ⟨by omega, hg.2.imp (by omega) (fun hf => hf)⟩
+      | .set, .added =>
+        simp only
+        have hg : t.loc.proofs.length = t.loc.n ∧ (t.loc.n ≤ s.max ∨ Frozen s) := by
+          unfold TOk at htok; simpa [hpc] using htok
+        by_cases hfz : s.stored.isSome = true ∧ s.sealed_ = true
+        · simp only [hfz, and_self, if_true]
+          exact cinv_setThread s _ i _ h ⟨rfl, fun hf => hf⟩ rfl (fun e he => h.stored e he)
+            (fun hr => h.snap hr) (by unfold TOk; trivial)
+        · simp only [hfz, if_false]
+          have hnf : ¬ Frozen s := fun hf => hfz ⟨hf.2, hf.1⟩
+          refine cinv_setThread s _ i _ h ⟨rfl, fun hf => absurd hf hnf⟩ rfl ?_
+            (fun hr => h.snap hr) (by unfold TOk; trivial)
+          intro e he
+          simp only [Option.some.injEq] at he
+          subst he
+          exact ⟨hg.1, hg.2.resolve_right hnf⟩
+      | .respond, .stored =>
+        simp only
+        exact cinv_setThread s _ i _ h ⟨rfl, fun hf => hf⟩ rfl (fun e he => h.stored e he)
+          (fun hr => h.snap hr) (by unfold TOk; trivial)
+      | .validate, .validated | .validate, .got | .validate, .added | .validate, .stored
+      | .validate, .responded | .validate, .rejected => exact h
+      | .get, .start | .get, .got | .get, .added | .get, .stored | .get, .responded | .get, .rejected => exact h
+      | .add, .start | .add, .validated | .add, .added | .add, .stored | .add, .responded | .add, .rejected => exact h
+      | .set, .start | .set, .validated | .set, .got | .set, .stored | .set, .responded | .set, .rejected => exact h
+      | .respond, .start | .respond, .validated | .respond, .got | .respond, .added
+      | .respond, .responded | .respond, .rejected => exact h
+  | .cread =>
+    simp only [step]
+    match hsl : s.sealer, hst : s.stored with
+    | .idle, some e =>
+      simp only
+      have he := h.stored e hst
+      refine cinv_shared s _ h ⟨rfl, ?_⟩ rfl ?_ ?_
+      · intro hf; exact ⟨hf.1, by simp [hst]⟩
+      · intro e' he'; simp only [hst] at he'; cases he'; exact he
+      · intro _; exact he
+    | .idle, none => exact h
+    | .read, _ => exact h
+    | .done, _ => exact h
+  | .cseal =>
+    simp only [step]
+    match hsl : s.sealer with
+    | .read =>
+      simp only
+      by_cases hs : s.sealed_ = true
+      · rw [if_pos hs]
+        exact cinv_shared s _ h ⟨rfl, fun hf => hf⟩ rfl (fun e he => h.stored e he) (by intro hr; cases hr)
+      · rw [if_neg hs]
+        refine cinv_shared s _ h ⟨rfl, fun _ => ⟨rfl, rfl⟩⟩ rfl ?_ (by intro hr; cases hr)
+        intro e he
+        simp only [Option.some.injEq] at he
+        subst he
+        exact h.snap hsl
+    | .idle => exact h
+    | .done => exact h
+
+theorem cinv_init (max : Nat) (ids : List P) : CInv (init max ids) := by
+  refine ⟨by simp [init], by simp [init], ?_⟩
+  intro t ht
+  simp only [init, List.mem_map] at ht
+  obtain ⟨p, _, rfl⟩ := ht
+  unfold TOk
+  trivial
+
+theorem cinv_run (ls : List Label) : ∀ s, CInv s → CInv (run s ls) := by
+  induction ls with
+  | nil => intro s h; exact h
+  | cons l ls ih => intro s h; exact ih _ (cinv_step s l h)
+
+theorem withinLimit_of_inv (s : St) (h : CInv s) : withinLimit s = true := by
+  unfold withinLimit storedN storedProofs
+  cases hs : s.stored with
+  | none => simp
+  | some e =>
+    have := h.stored e hs
+    unfold EvOk at this
+    simp
+    omega
+
+end ConcRelay
